@@ -199,6 +199,13 @@ def run(pid, tier, seed, replay=None):
                     key = json.dumps([e["op"], e.get("d"), e.get("r"), e.get("p"), e.get("e"), e.get("rs"),
                                       e.get("b"), e["post"]["kids"], e["post"]["uid"]], sort_keys=True)
                     nontrivial.add(hash(key))
+    uid_cov = None
+    if pid == "C12":
+        uid_cov = uid_generator(rep, quick, seed)
+        states += uid_cov["states"]
+        transitions += uid_cov["transitions"]
+        total_eps += 1
+        total_events += uid_cov["events"]
     if others:
         log("[%s] note: %d rejected trace lines belong to a sibling property's check" % (pid, others))
 
@@ -228,6 +235,8 @@ def run(pid, tier, seed, replay=None):
                        "long histories are executed on real WeakDoms; C: seeded random driver. Every logged call is validated "
                        "by WeakDomTrace.tla (structure recomputed by the spec action, UniqueIds judged by UidRule).",
     }
+    if uid_cov:
+        cov["unique_id_generator"] = uid_cov
     if not quick:
         cov["exhaustive_histories_len3_total"] = n_h3
         cov["exhaustive_histories_len3_replayed"] = min(n_h3, 150000)
@@ -274,3 +283,47 @@ def nontrivial_step(pid, e):
             return any(u != 0 for u in post["uid"])
         return False
     return False
+
+
+def uid_generator(rep, quick, seed):
+    """UniqueIdGen.tla: all interleavings of concurrent now() calls (A) and a real multi-thread run (C)."""
+    out = {"states": 0, "transitions": 0}
+    cfg = os.path.join(OUT, "UniqueIdGen.cfg")
+    c = dict(NumThreads=3, MaxCalls=(3 if quick else 4), Modulus=16, Impl='"fetch_add"')
+    write_cfg(cfg, "Spec", c, invariants="Distinct Increasing")
+    r = tlc("UniqueIdGen", cfg, workers=8, timeout=1200)
+    v = tlc_violation(r)
+    if v:
+        rep.violation("spec|UniqueIdGen|" + v[:60], {"tlc": r["out"][-4000:]}, v)
+    out["states"] += r.get("distinct", 0)
+    out["transitions"] += r.get("generated", 0)
+    # wrap-around bound stated explicitly: with Modulus below the number of calls ids do repeat
+    c2 = dict(NumThreads=2, MaxCalls=3, Modulus=4, Impl='"fetch_add"')
+    write_cfg(cfg, "Spec", c2, invariants="Distinct")
+    r2 = tlc("UniqueIdGen", cfg, workers=2, timeout=600)
+    if tlc_violation(r2):
+        rep.violation("spec|UniqueIdGen|wrap", {"tlc": r2["out"][-4000:]}, "Distinct fails below the wrap-around bound")
+    # sanity: the non-atomic variant must be caught by TLC
+    c3 = dict(NumThreads=2, MaxCalls=2, Modulus=16, Impl='"load_store"')
+    write_cfg(cfg, "Spec", c3, invariants="Distinct")
+    r3 = tlc("UniqueIdGen", cfg, workers=2, timeout=600)
+    if "Invariant Distinct is violated" not in r3["out"]:
+        raise ToolError("sanity: load/store variant of the counter not caught by TLC")
+    threads, calls = (8, 4000) if quick else (16, 40000)
+    trace = os.path.join(OUT, "C12_uid_trace.ndjson")
+    rbxv(["uid-stress", "--threads", threads, "--calls", calls], stdout_path=trace)
+    tcfg = os.path.join(OUT, "UniqueIdGenTrace.cfg")
+    write_cfg(tcfg, "TraceSpec", dict(NumThreads=threads, MaxCalls=calls, Modulus=2000000000, Impl='"fetch_add"'))
+    res = validate_trace("UniqueIdGenTrace", tcfg, trace, shards=1, timeout=3000)
+    for m in res["mismatches"]:
+        ev = [json.loads(x) for x in open(trace).readlines()[max(0, m[1] - 4):m[1] + 2]]
+        rep.violation("uidgen|mismatch", {"line": m[1], "events": ev},
+                      "concurrent UniqueId::now() calls are not a behaviour of UniqueIdGen.tla (line %d)" % m[1])
+    for shard, text, tail in res["violations"]:
+        rep.violation("uidgen|" + text[:60], {"tlc": tail}, text)
+    out["events"] = res["events"]
+    out["threads"] = threads
+    out["calls_per_thread"] = calls
+    if not rep.violations and os.path.exists(trace):
+        os.remove(trace)
+    return out
